@@ -47,6 +47,29 @@ func (e *Exec) baseEnv(fr *Frame, st *State) *SpecEnv {
 			env.vars["&"+fv.Name()] = v
 		}
 	}
+	// named local variables that live in memory (address taken): aggregates are visible as a
+	// pointer to them (field access dereferences), others through "&name" (loaded on use)
+	for _, b := range fr.fn.Blocks {
+		for _, in := range b.Instrs {
+			al, ok := in.(*ssa.Alloc)
+			if !ok || al.Comment == "" || al.Comment == "complit" || al.Comment == "varargs" {
+				continue
+			}
+			v, done := fr.vals[al]
+			if !done {
+				continue
+			}
+			if _, clash := env.vars[al.Comment]; clash {
+				continue
+			}
+			T := al.Type().Underlying().(*types.Pointer).Elem()
+			if isAggregate(T) {
+				env.vars[al.Comment] = v
+			} else if _, clash := env.vars["&"+al.Comment]; !clash {
+				env.vars["&"+al.Comment] = v
+			}
+		}
+	}
 	return env
 }
 
@@ -675,6 +698,36 @@ func (env *SpecEnv) evalCall(x *SExpr) (Val, error) {
 				return Val{}, fmt.Errorf("addr(): %s is not a direct aggregate field", args[0])
 			}
 			return Val{T: types.NewPointer(fv.Type()), S: subRef(o.S, pt.Elem(), fv.Name()), NN: true}, nil
+		case "haskey":
+			m, err := env.eval(args[0])
+			if err != nil {
+				return Val{}, err
+			}
+			mt, ok := m.T.Underlying().(*types.Map)
+			if !ok {
+				return Val{}, fmt.Errorf("haskey() of non-map")
+			}
+			ks, ok := e.mapSorts(m.T)
+			if !ok {
+				return Val{}, fmt.Errorf("haskey(): composite key")
+			}
+			k, err := env.eval(args[1])
+			if err != nil {
+				return Val{}, err
+			}
+			k, _ = env.coerce(k, mt.Key())
+			pres := sel(sel(e.heapGet(env.st, "M:"+typeKey(m.T)+".present", arrSort(sRef, arrSort(ks, sBool))), m.S), k.leaves()[0])
+			return Val{T: tBool, S: mkAnd(mkNot(mkEq(m.S, "0")), pres)}, nil
+		case "concat":
+			a, err := env.eval(args[0])
+			if err != nil {
+				return Val{}, err
+			}
+			b, err := env.eval(args[1])
+			if err != nil {
+				return Val{}, err
+			}
+			return Val{T: tString, S: e.concat(a.S, b.S, "true")}, nil
 		case "disjoint":
 			// two slices do not share a backing array
 			a, err := env.eval(args[0])
